@@ -103,10 +103,30 @@ def check_line(entry, res, tier, which):
                             break
                     if ok:
                         break
+                fws = []
                 if not ok and not z3.is_bv_value(z3.simplify(t)):
-                    st1, m = eng.find(z3.And(*[z3.And(nt != zt, nt != st, -nt != zt, -nt != st) for nt in nterms])) if nterms else ('sat', eng.witness())
+                    # the decoder reports a zero-extended byte / word field as a plain integer: if the decoded value provably
+                    # fits fw < w bits on the whole path, the field is fw bits wide and -3 / 253 (mod 2^fw) are one value
+                    # (GNU as encodes 'btc eax, 4294967293' and 'in al, 4294967293' as fd too)
+                    for fw in (8, 16):
+                        if fw < w and eng.prove(z3.Extract(w - 1, fw, t) == 0):
+                            fws.append(fw)
+                            lo = z3.Extract(fw - 1, 0, t)
+                            zt2, st2 = z3.ZeroExt(32 - fw, lo), z3.SignExt(32 - fw, lo)
+                            for j, nt in enumerate(nterms):
+                                if eng.prove(z3.Or(nt == zt2, nt == st2)) or eng.prove(z3.Or(-nt == zt2, -nt == st2)):
+                                    ok = True
+                                    used[j] = True
+                                    break
+                            break
+                if not ok and not z3.is_bv_value(z3.simplify(t)):
+                    alts = [(zt, st)]
+                    for fw in fws:
+                        lo = z3.Extract(fw - 1, 0, t)
+                        alts.append((z3.ZeroExt(32 - fw, lo), z3.SignExt(32 - fw, lo)))
+                    st1, m = eng.find(z3.And(*[z3.And(nt != a, nt != b_, -nt != a, -nt != b_) for nt in nterms for a, b_ in alts])) if nterms else ('sat', eng.witness())
                     return ('CEX', 'value:%s' % name, 'candidate %d: decoded %s is not one of the numbers of the line (truncated or sign-changed)' % (ci, lab),
-                            eng.model_inputs(m if m is not None else eng.witness()), ci)
+                            eng.model_inputs(m if m is not None else eng.witness()), ci, {'fws': fws})
             for j, u in enumerate(used):
                 if not u and eng.prove(nterms[j] == 0):
                     continue          # a zero displacement may be omitted from the encoding
@@ -141,7 +161,8 @@ def check_line(entry, res, tier, which):
             if key not in seen and prop == which:
                 seen.add(key)
                 res['candidates'].append({'key': key, 'desc': '%s: %s with %s' % (title, r[2], r[3]),
-                                          'data': {'tmpl': tmpl, 'k': k, 'vals': [r[3].get('n%d' % j, 0) for j in range(k)], 'what': r[1].split(':')[0], 'ci': r[4]}})
+                                          'data': {'tmpl': tmpl, 'k': k, 'vals': [r[3].get('n%d' % j, 0) for j in range(k)], 'what': r[1].split(':')[0], 'ci': r[4],
+                                                   'fws': (r[5] if len(r) > 5 else {}).get('fws', [])}})
         elif r[0] in ('REJECT', 'SKIP'):
             pass
         else:
@@ -184,8 +205,13 @@ def check_line(entry, res, tier, which):
             res['samples'].append({'line': tmpl, 'paths': len(rs), 'verdict': 'every candidate decodes to its full length and carries exactly the numbers of the line on %d path(s)' % ok})
 
 
+STRING_MN = set(st + sf for st in ('movs', 'cmps', 'stos', 'lods', 'scas', 'ins', 'outs') for sf in 'bwd')
+
+
 def _implicit_ok(name, tmpl):
-    return False
+    # 'movsb eax, BYTE PTR [...]' : GNU as reads the AT&T alias of movsx, Intel assemblers the string instruction with
+    # explicit operands: what such a line denotes is assembler-specific, so it is outside the quantifier
+    return name in STRING_MN
 
 
 def _models(eng):
@@ -274,8 +300,10 @@ def jobs(tier, seed, which='C02'):
     if tier == 'quick':
         rest = [n for n in names if n not in CORE_MN]
         rnd.shuffle(rest)
-        names = [n for n in CORE_MN if n in names] + rest[:40]
-    chunks = [names[i:i + 6] for i in range(0, len(names), 6)]
+        alu = ['add', 'adc', 'sub', 'sbb', 'cmp', 'and', 'or', 'xor']     # one encoding family: 3 of 8 per quick run (all in thorough)
+        drop = set(alu) - set(rnd.sample(alu, 3))
+        names = [n for n in CORE_MN if n in names and n not in drop] + rest[:15]
+    chunks = [names[i:i + 1] for i in range(0, len(names), 1)]
     return [('asm', tier, ch, which) for ch in chunks]
 
 
@@ -324,9 +352,12 @@ for ci, b in enumerate(cands):
         from vf.checks import c01
         fs = [(int(v), getattr(v, 'size', 32)) for _, v in c01.numeric_fields(i)]
         nums = [n %% (1 << 32) for n in D['vals']]
-        for v, w in fs:
-            z = v %% (1 << w); s = z - (1 << w) if z >> (w - 1) else z
-            if not any(n in (z, s %% (1 << 32), (-z) %% (1 << 32), (-s) %% (1 << 32)) for n in nums) and nums:
+        for v, w0 in fs:
+            hit = False
+            for w in [w0] + [fw for fw in D.get('fws', []) if fw < w0 and 0 <= v < (1 << fw)]:
+                z = v %% (1 << w); s = z - (1 << w) if z >> (w - 1) else z
+                if any(n in (z, s %% (1 << 32), (-z) %% (1 << 32), (-s) %% (1 << 32)) for n in nums): hit = True
+            if not hit and nums:
                 bad = True; print('candidate', b.hex(), 'carries %%#x, the line has %%s' %% (v, [hex(n) for n in nums]))
         if what == 'dropped':
             for n in nums:
